@@ -25,10 +25,10 @@ import (
 )
 
 const (
-	shortTimeoutMs = 5000  // msg_timeout of "short" consumers
-	longTimeoutMs  = 60000 // msg_timeout of the others (the daemon default)
+	shortTimeoutMs = 5000   // msg_timeout of "short" consumers
+	longTimeoutMs  = 60000  // msg_timeout of the others (the daemon default)
 	xlongTimeoutMs = 120000 // some consumers negotiate more than the daemon default
-	deferMs        = 30000 // REQ / DPUB delay when not immediate
+	deferMs        = 30000  // REQ / DPUB delay when not immediate
 	scanShort      = 20 * time.Second
 	scanMid        = 90 * time.Second // between the default and the xlong msg_timeout
 	scanLong       = 90 * time.Minute // between max-req-timeout (1 h) and the over-long REQ delay (2 h)
@@ -48,29 +48,29 @@ type shClient struct {
 }
 
 type caseRun struct {
-	r        *lib.Rand
-	profile  string
-	memq     int64
-	dir      string
-	opts     *nsqd.Options
-	d        *nsqd.NSQD
-	httpAddr string
-	tcpAddr  string
-	pub      *rawClient
-	clients  map[int]*shClient
-	nextK    int
-	nextTag  int
-	topics   map[int]bool            // exists
-	chans    map[[2]int]bool         // exists
-	tpaused  map[int]bool
-	cpaused  map[[2]int]bool
-	known    [][2]string             // (tag, msgid) ever seen, for foreign FIN/REQ/TOUCH
-	events   []string
-	tags     map[string]int
+	r         *lib.Rand
+	profile   string
+	memq      int64
+	dir       string
+	opts      *nsqd.Options
+	d         *nsqd.NSQD
+	httpAddr  string
+	tcpAddr   string
+	pub       *rawClient
+	clients   map[int]*shClient
+	nextK     int
+	nextTag   int
+	topics    map[int]bool    // exists
+	chans     map[[2]int]bool // exists
+	tpaused   map[int]bool
+	cpaused   map[[2]int]bool
+	known     [][2]string // (tag, msgid) ever seen, for foreign FIN/REQ/TOUCH
+	events    []string
+	tags      map[string]int
 	unsettled int
-	nontriv  bool
-	opsLog   []string
-	topo     bool
+	nontriv   bool
+	opsLog    []string
+	topo      bool
 	hadClient map[[2]int]bool
 	hadChan   map[int]bool
 	frames    int  // message frames recorded in this case
@@ -114,9 +114,9 @@ func z(v int64) string {
 	return fmt.Sprintf("%d%%Z", v)
 }
 
-func (cr *caseRun) ev(s string)       { cr.events = append(cr.events, s) }
-func (cr *caseRun) tag(s string)      { cr.tags[s]++ }
-func (cr *caseRun) now() int64        { return time.Now().UnixNano() }
+func (cr *caseRun) ev(s string)  { cr.events = append(cr.events, s) }
+func (cr *caseRun) tag(s string) { cr.tags[s]++ }
+func (cr *caseRun) now() int64   { return time.Now().UnixNano() }
 
 func (cr *caseRun) startDaemon() {
 	var err error
